@@ -1063,9 +1063,10 @@ impl Variant for Struct {
 
     fn contains(&self, element: &Self::Element) -> bool {
         self.fields.iter().all(|(s, d)| {
+            // A field that is absent from a struct stands for `Any` (see `data_type` and `is_subset_of`)
             element
                 .value(s)
-                .map_or(false, |v| d.as_ref().contains(v.as_ref()))
+                .map_or(d.as_ref() == &DataType::Any, |v| d.as_ref().contains(v.as_ref()))
         })
     }
 
